@@ -27,6 +27,20 @@ def innermost_vyper_frame(tb):
     return f"{fr.filename.split('/vyper/', 1)[1]}:{fr.name}"
 
 
+def recursive_frame(tb):
+    """for RecursionError: the vyper function occurring most often in the traceback (the cycle), which is stable,
+    unlike the innermost frame (wherever the stack happened to run out)"""
+    import collections
+    c = collections.Counter()
+    for f in traceback.extract_tb(tb):
+        if "/vyper/" in f.filename:
+            c[f"{f.filename.split('/vyper/', 1)[1]}:{f.name}"] += 1
+    if not c:
+        return "?:?"
+    top = max(c.values())
+    return sorted(k for k, v in c.items() if v == top)[0]
+
+
 def has_location(e):
     try:
         if getattr(e, "annotations", None):
@@ -38,7 +52,7 @@ def has_location(e):
         return False
 
 
-def classify(src, venom, level, limit, phase="bytecode"):
+def classify(src, venom, level, limit, phase="bytecode", files=None):
     from vyper.compiler import compile_code
     from vyper.compiler.settings import OptimizationLevel, Settings
     from vyper.exceptions import VyperException, VyperInternalException
@@ -49,7 +63,13 @@ def classify(src, venom, level, limit, phase="bytecode"):
         with warnings.catch_warnings():
             warnings.simplefilter("ignore")
             fmts = ["bytecode", "bytecode_runtime", "abi"] if phase == "bytecode" else ["annotated_ast_dict"]
-            compile_code(src, output_formats=fmts, settings=st)
+            if files is None:
+                compile_code(src, output_formats=fmts, settings=st)
+            else:
+                from vyper.cli.vyper_compile import compile_files
+                root, target, paths = files
+                compile_files([os.path.join(root, target)], fmts, paths=[os.path.join(root, p) for p in paths],
+                              include_sys_path=False, settings=st)
         return {"outcome": "output"}
     except Timeout:
         return {"outcome": "INTERNAL", "exc": "Timeout", "frame": "?", "msg": f"no result within {limit}s"}
@@ -59,7 +79,7 @@ def classify(src, venom, level, limit, phase="bytecode"):
         return {"outcome": "user", "exc": type(e).__name__, "loc": has_location(e), "frame": innermost_vyper_frame(e.__traceback__),
                 "msg": str(e)[:160]}
     except RecursionError as e:
-        return {"outcome": "INTERNAL", "exc": "RecursionError", "frame": innermost_vyper_frame(e.__traceback__), "msg": ""}
+        return {"outcome": "INTERNAL", "exc": "RecursionError", "frame": recursive_frame(e.__traceback__), "msg": ""}
     except Exception as e:  # raw python exception
         return {"outcome": "INTERNAL", "exc": type(e).__name__, "frame": innermost_vyper_frame(e.__traceback__), "msg": str(e)[:300]}
     finally:
@@ -69,14 +89,27 @@ def classify(src, venom, level, limit, phase="bytecode"):
 def main():
     job = json.load(open(sys.argv[1]))
     limit = job["limit"]
+    import tempfile
     for it in job["items"]:
         res = {"id": it["id"], "runs": {}}
-        front = classify(it["src"], False, "gas", limit, phase="front")
+        files = None
+        if it.get("files"):
+            root = tempfile.mkdtemp(prefix="c20w_")
+            for rel, txt in it["files"].items():
+                fp = os.path.join(root, rel)
+                os.makedirs(os.path.dirname(fp), exist_ok=True)
+                with open(fp, "w") as fh:
+                    fh.write(txt)
+            files = (root, it["target"], it.get("paths", ["."]))
+        front = classify(it.get("src"), False, "gas", limit, phase="front", files=files)
         res["front"] = front
         for venom, level in job["configs"]:
-            res["runs"][f"{'venom' if venom else 'legacy'}-{level}"] = classify(it["src"], venom, level, limit)
+            res["runs"][f"{'venom' if venom else 'legacy'}-{level}"] = classify(it.get("src"), venom, level, limit, files=files)
             if res["front"]["outcome"] != "output":
                 break  # rejected by the front end: one back-end run is enough to see the same diagnostic
+        if files is not None:
+            import shutil
+            shutil.rmtree(files[0], ignore_errors=True)
         print("C20ROW" + json.dumps(res), flush=True)
 
 
